@@ -136,6 +136,7 @@ type Env struct {
 	rec          *[]string       // when non-nil: names of heap maps read (footprint recording)
 	revealed     map[string]bool // opaque spec predicates revealed in the function being verified
 	rangeKeySort string          // key sort of the map range of the function being verified (spec: rangevisited)
+	rangeMap     string          // heap name of that range's ghost set; "?" when the function has several map ranges
 }
 
 type mapType struct {
